@@ -458,6 +458,8 @@ def convert_der_sig(signature, as_hex=True):
         return ""
     if USE_FASTECDSA:
         r, s = DEREncoder.decode_signature(bytes(signature))
+        if DEREncoder.encode_signature(r, s) != bytes(signature):
+            raise EncodingError("Signature is not strictly DER encoded")
     else:
         sg, junk = ecdsa.der.remove_sequence(signature)
         if junk != b'':
